@@ -14,3 +14,5 @@ import Ts.Model.Tables
 import Ts.Model.Demux
 import Ts.Model.App
 import Ts.Props.C12
+import Ts.Props.C15
+import Ts.Props.C13
